@@ -110,9 +110,12 @@ ClashExplain(cfg, s, a, out) ==
 \* DevPathAcct: the keys are those of the position asked for (path text), stored under the default account
 PathAcctExplain(cfg, s, a, e, out) ==
     LET fixed == [k \in 1..Len(out) |-> [out[k] EXCEPT !.acct = a.acct]] IN
-    /\ ~cfg.watch /\ ~cfg.ms /\ a.acctin = "path" /\ a.net = cfg.net /\ s.dflt # 0 /\ a.acct # s.dflt
+    /\ ~cfg.watch /\ ~cfg.ms /\ a.acctin = "path" /\ a.net = cfg.net /\ a.acct # s.dflt
     /\ a.op \in {"key_for_path", "export"} /\ Len(out) >= 1
-    /\ \A k \in 1..Len(out) : out[k].acct = s.dflt
+    \* keys that existed are handed out as they are; every key the call created carries the default account
+    /\ \A k \in 1..Len(out) : out[k].acct = a.acct \/ (out[k].acct = s.dflt /\ (a.op = "export" \/ fixed[k] \notin s.keys))
+    /\ \E k \in 1..Len(out) : out[k].acct # a.acct
+    /\ (s.dflt = 0 => a.n > 1 /\ out[1].acct = a.acct)        \* default account 0: only the later keys of a bulk call
     /\ Allowed(cfg, s, a, fixed) = "ok"
     /\ IF a.op = "export" THEN TextTokens(e.out[1].path) = AcctTokens(cfg, Acct(a.net, a.wt, a.acct))
        ELSE \A k \in 1..Len(out) : TextTokens(e.out[k].path) = PosTokens(cfg, fixed[k])
